@@ -6,6 +6,7 @@ import SeaQ.Model.Ident
 import Driver.Cond
 import Driver.Ins
 import Driver.Expr
+import Driver.VEq
 /-! Line-protocol driver: one request per line on stdin, one canonical result line on stdout. -/
 open SeaQ SeaQ.Util
 
@@ -64,6 +65,7 @@ def handle (line : String) : String :=
   if l.startsWith "cond " then Driver.Cond.run (l.drop 5).toString
   else if l.startsWith "ins " then Driver.Ins.run (l.drop 4).toString
   else if l.startsWith "pexpr " then Driver.Expr.run (l.drop 6).toString
+  else if l.startsWith "veq " then Driver.VEq.run (l.drop 4).toString
   else handleWords l
 
 partial def loop (hin hout : IO.FS.Stream) : IO Unit := do
